@@ -6,19 +6,86 @@ HOOK_COMMITS = subprocess.run(
     ["git", "-C", "/repo", "log", "--format=%h %s", "--grep=^verif hooks:"],
     capture_output=True, text=True).stdout.strip().splitlines()
 
+def _c(engine, text, note, technique, category="exploration", ref=None):
+    return dict(engine=engine, category=category, text=text, note=note, technique=technique, design_ref=ref)
+
+JOBGEN_NOTE = ("Trusts the harness' sequential reference interpreter (jobgen/refsem.rs, written from the statements) and the "
+               "determinism discipline of the generator (order-sensitive forms only on sequential streams).")
+
 CHECKS = {
-    "C12": dict(
-        engine="winmon_count",
-        category="exploration",
-        text="The real CountWindow manager is driven through process() for every (size, slide, mode, length) "
-             "combination with 1<=slide<=size<=8 and lengths 0..40 (exhaustive sub-space), random parameters up "
-             "to size 64 and 10^4 elements, and keyed end-to-end pipelines with every window aggregator; each output "
-             "is compared with the sliding-group model [jS, jS+N) written from the statement. Exploration, not proof: "
-             "beyond the enumerated sub-space the claim is per sampled case.",
-        design_ref="DESIGN.md section 5, C12",
-        note="Trusts the harness' 15-line group model and that WindowOperator feeds the manager per key (checked by the e2e part).",
-        technique="runtime monitoring: differential oracle over the real window manager (exhaustive small space + random) and end-to-end jobs",
-    ),
+    "C01": _c("jobgen", "Random programs over the whole operator algebra (map/filter/flat_map, shuffles, replication changes, keyed and global "
+              "aggregations, joins, merge/split/route/broadcast/zip, count windows, replay/iterate incl. nested) run on the real engine under "
+              "several parallelisms, multi-host layouts (hosts as threads over loopback TCP), batch modes and injected delays; every sink and every "
+              "operator boundary (probe after each operator, per iteration) is compared with a sequential reference interpreter. Sampling, not proof.",
+              JOBGEN_NOTE, "runtime monitoring: differential oracle (sequential reference interpreter) over probe traces and sinks of real executions"),
+    "C02": _c("linkmon", "Observer hooks at NetworkSender::send and at every NetworkReceiver receive path record, per (producer replica -> endpoint), the "
+              "digest (kind, timestamp, payload hash) of every element; an offline checker requires the received sequence to equal the sent one on "
+              "every local and TCP link and flags elements received on links they were never sent on. Workloads: random programs with tiny batches, "
+              "payloads from 0 B to 1 MB, many replicas multiplexed on one connection, injected delays in senders, receivers and mux/demux threads.",
+              "Payload identity is the hash of the bincode serialisation; hooks run before the send and after the receive returns on the acting thread.",
+              "runtime monitoring: offline checker over the hooked link event log (per-link sequence equality)"),
+    "C03": _c("linkmon", "Pipelines whose connection kinds the harness knows (shuffle, group-by, broadcast, forward with every replication change, joins, "
+              "splits) are executed with the link log on; for each job-graph edge the routing rule of its kind is checked on the elements actually "
+              "sent: exactly one consumer (same-index for forward, key->replica functional dependency for group-by, shared between both join inputs), "
+              "every consumer for broadcast, conservation per edge, identical control-marker sequences on all links of a producer.",
+              "The connection kind of an edge is known by construction; block ids are learnt from probes; elements are identified by payload hash.",
+              "runtime monitoring: offline checker over the hooked link event log (routing rules per connection kind)"),
+    "C05": _c("jobgen", "A grammar automaton ((Item|Timestamped|Watermark|FlushBatch)* FlushAndRestart)+ Terminate runs over the trace of every probe (one "
+              "after every operator, on every replica) of random programs, half of them loop-heavy; inside loops the content of every operator "
+              "boundary is compared per round with the sequential meaning, so a result emitted after its FlushAndRestart or state carried into the "
+              "next round shows up as a per-round mismatch.",
+              JOBGEN_NOTE, "runtime monitoring: online grammar automaton on probe traces + per-iteration differential oracle"),
+    "C07": _c("jobgen", "Aggregation-heavy random programs: every form of the statement (fold, reduce, fold_assoc, reduce_assoc, group_by+fold/reduce, "
+              "group_by_fold/reduce/sum/count/avg/min_element/max_element, keyed rich_map state) on empty, single-key, skewed and many-key inputs, in "
+              "pipelines and loops; the probe right after each aggregation is compared per iteration with a sequential fold (exactly one result per "
+              "key, none for empty input).",
+              JOBGEN_NOTE + " User functions are associative and commutative integer functions; averages use exact f64 sums.",
+              "runtime monitoring: differential oracle (sequential fold per key) on probe traces"),
+    "C08": _c("jobgen", "Join-heavy random programs: inner/left/outer x ship_hash/broadcast_right x local hash/sort-merge plus keyed join/join_outer, with "
+              "duplicate keys, one-sided keys and empty sides, slow-sender/receiver/network policies biasing which side arrives and ends first; the "
+              "probe after the join is compared with a nested-loop relational join on unique ids.",
+              JOBGEN_NOTE, "runtime monitoring: differential oracle (nested-loop relational join) on probe traces"),
+    "C09": _c("jobgen", "Fan-out/fan-in-heavy random programs: split branches, routes (first matching predicate), merge, zip (positional when sequential, "
+              "otherwise cardinality and no-element-twice on the recorded pairs) and broadcast (a raw probe on every downstream replica must see "
+              "every element exactly once) in diamonds with shuffles, under all layouts and delay policies.",
+              JOBGEN_NOTE, "runtime monitoring: set algebra on unique ids over probe traces"),
+    "C10": _c("loopmon", "Replay and iterate loops whose state carries the round number: the first body operator tags each element with the round it read, "
+              "every later body operator (after shuffles, on other hosts) re-reads the state and the monitor requires equality, so a stale or premature "
+              "read is caught even when results are unaffected; final state, number of rounds and iterate output are compared with the sequentially "
+              "unrolled loop. Delay policies slow the state-feedback and data links separately; the number of state waits that really blocked is measured. "
+              "Thorough adds Miri and ThreadSanitizer runs of loop workloads over the UnsafeCell loop state.",
+              "Trusts the 30-line sequential loop model; sanitizer coverage is limited to the executions produced (Miri: local configurations only).",
+              "runtime monitoring: round-tag monitor on hooked user functions + differential fixed point; Miri/TSan sanitizers (thorough)"),
+    "C11": _c("loopmon", "Loops whose body merges / joins / zips a stream from outside the loop: a probe right after the combination records, per round and "
+              "replica, the side elements seen; every round must present the side input completely and exactly once (pairs for join/zip), the loop "
+              "must run the expected number of rounds and the protocol grammar must hold (no replay of the side after the last round). Side sizes "
+              "0..1200 (many batches), adaptive batching with delays below the round time, slow links.",
+              "Trusts that side elements are recognisable by their reserved id range / marker value.",
+              "runtime monitoring: per-round multiset comparison on probe traces + grammar automaton"),
+    "C12": _c("winmon_count", "The real CountWindow manager is driven through process() for every (size, slide, mode, length) "
+              "combination with 1<=slide<=size<=8 and lengths 0..40 (exhaustive sub-space), random parameters up "
+              "to size 64 and 10^4 elements, and keyed end-to-end pipelines with every window aggregator; each output "
+              "is compared with the sliding-group model [jS, jS+N) written from the statement. Exploration, not proof: "
+              "beyond the enumerated sub-space the claim is per sampled case.",
+              "Trusts the harness' 15-line group model and that WindowOperator feeds the manager per key (checked by the e2e part).",
+              "runtime monitoring: differential oracle over the real window manager (exhaustive small space + random) and end-to-end jobs"),
+    "C15": _c("srcmon", "File and CSV sources are run on random contents (empty file, empty lines, no final newline, CRLF, lines longer than a replica's byte "
+              "range, more replicas than lines) for 1..12 replicas and multi-host layouts, every line/record carrying a unique number; the integer "
+              "range splitter is called directly for all ten integer types and the returned sub-range bounds are checked for disjointness, order and "
+              "exact cover without iterating (near-limit, reversed, empty, up to 2^62 elements); iterator and channel sources must emit the input as a sequence.",
+              "Trusts std's split_inclusive as the definition of a line and the csv writer used to produce the files.",
+              "runtime monitoring: differential oracle over real source executions; direct range-arithmetic inspection"),
+    "C16": _c("jobgen", "Sequential random pipelines (one replica end to end, local(1), remote [1], and sequential segments inside larger deployments): every "
+              "probe on a totally ordered variable and every collect_vec sink must equal the iterator-chain result as a sequence, for every batch "
+              "mode and transport. reorder() is covered by the C06/C13 script engine.",
+              JOBGEN_NOTE, "runtime monitoring: sequence equality against the sequential reference on probe traces and sinks"),
+    "C19": _c("graphdump", "The hook StreamContext::verif_execution_graph computes the execution graph and address map exactly as execute_blocking would, "
+              "without starting threads. For a catalogue of ~45 programs covering every block shape and a grid of configurations (local 1..8, all "
+              "permutations of cores {1,2,3,5,8} for 1-3 hosts, sampled 4-5 hosts, Limited(n) around per-host and total core counts) the dump of every "
+              "host_id must be identical and satisfy the placement, global-id, link and address rules; a sample is executed and the links used by "
+              "the workers must equal the dumped ones.",
+              "Trusts that the hook calls the same build_execution_graph/NetworkTopology::build as start_blocking (it does, by construction of the hook).",
+              "runtime monitoring: invariant checker on the hooked graph construction, cross-host comparison, confirmed against executed link logs"),
 }
 
 NOT_YET = {}
@@ -38,7 +105,7 @@ def main():
                 "evidence_file": f"/verif/evidence/{pid}.json",
                 "replay_cmd_template": f"./check {pid} --replay {{path}}",
                 "engine": c["engine"],
-                "level_claimed": {"category": c["category"], "text": c["text"], "design_ref": c["design_ref"]},
+                "level_claimed": {"category": c["category"], "text": c["text"], "design_ref": c["design_ref"] or f"DESIGN.md section 5, {pid}"},
                 "level_note": c["note"],
                 "technique": c["technique"],
             })
